@@ -4,13 +4,14 @@ CONSTANTS
   Acqs <- A3
   W <- W3
   InitSizes = {2, 3}
-  Sizes = {1, 2, 3}
+  Sizes = {1, 3}
   MaxSet = 1
-  Forces = {1, 2}
+  Forces = {2}
   MaxForce = 1
   MaxOps = 0
   Bug = "none"
   KeepHist = TRUE
 VIEW View
 ACTION_CONSTRAINT Export
+INVARIANTS TypeOK AdmitWithinSize FIFO NoLeak NoLostWakeup OutcomeOK
 CHECK_DEADLOCK FALSE
